@@ -77,8 +77,10 @@ impl<'a, R: Read> Reader<'a, R> {
         schemata: Option<Vec<&'a Schema>>,
         #[builder(default = is_human_readable())] human_readable: bool,
     ) -> AvroResult<Reader<'a, R>> {
-        let schemata =
-            schemata.unwrap_or_else(|| reader_schema.map(|rs| vec![rs]).unwrap_or_default());
+        // The reader schema must not be used to resolve names while parsing the *writer* schema:
+        // both usually define the same names, and the writer's definitions are the ones the data
+        // was written with.
+        let schemata = schemata.unwrap_or_default();
 
         let block = Block::new(reader, schemata, human_readable)?;
         let mut reader = Reader {
